@@ -27,9 +27,11 @@ from vf.common import Check, short
 
 VALID_PROPS = ['globally: no a', 'globally: some b {x > 1} within 100 ms', 'after a as A until (b or c): d {y < @A.y} causes e within 2 s', 'until q: x1 requires y1 {z in [0 to INF]}',
                'after (p0 or p1): s forbids t {forall v in xs: @v != NAN}', 'globally: no (m or n {not p}) within 0.5 s', 'globally: some k {x < 1e400 and y = -INF}',
-               '# id: p1\n# title: "t"\nglobally: no a {s = "q\\"uote" or abs(x) > PI}', 'globally: a causes b']
+               '# id: p1\n# title: "t"\nglobally: no a {s = "q\\"uote" or abs(x) > PI}', 'globally: a causes b',
+               'globally: no a {x > ' + '1' + '0' * 320 + '}', 'globally: no a {x > -' + '9' * 400 + ' and y < 1e-400}']
 INVALID_PROPS = ['globally: no', 'globally no a', 'globally: some b {x + 1}', 'after a as A: some b as A', 'globally: no a {@Z.x > 1}', 'globally: no (a or a)', 'globally: some b {foo(x) > 1}',
-                 '# id: a\n# id: b\nglobally: no a', '', '$$$']
+                 '# id: a\n# id: b\nglobally: no a', '', '$$$', 'globally: no a globally: some b', 'globally: no a\nglobally: some b', 'globally: no a\n# id: x\nglobally: some b',
+                 'globally: no a # id: trailing']
 
 
 def strict_loads(text: str):
